@@ -555,6 +555,12 @@ func smallTypeSystems(k int) []string {
 }
 
 var handSchemas = []string{
+	// type-level directives on extensions of BUILT-IN types are checked like any other: undefined, misplaced,
+	// lacking a required argument, with an unknown argument; and the well-formed ones load
+	"extend scalar String @nope type Query { a: String }", "extend scalar ID @specifiedBy type Query { a: ID }", "directive @onField on FIELD extend type __Type @onField type Query { a: Int }",
+	"extend enum __TypeKind @deprecated type Query { a: Int }", "extend scalar Int @specifiedBy(url: \"u\", zz: 1) type Query { a: Int }", "directive @tag(n: Int!) on SCALAR | OBJECT | ENUM extend scalar Float @tag type Query { a: Float }",
+	"directive @tag(n: Int!) on SCALAR | OBJECT | ENUM extend scalar Float @tag(n: 1) extend type __Schema @tag(n: 2) extend enum __DirectiveLocation @tag(n: 3) type Query { a: Float }",
+	"extend scalar Boolean @specifiedBy(url: \"https://example.com\") type Query { a: Boolean }",
 	"extend schema { query: Root mutation: Writes } type Root { a: Int } type Writes { w: Int } type Query { notroot: Int } type Mutation { notroot: Int }",
 	"extend schema { subscription: Subs } type Query { a: Int } type Subs { s: Int } type Subscription { notroot: Int }",
 	"schema { query: Q } schema { query: R } type Q { a: Int } type R { a: Int }",
